@@ -129,6 +129,10 @@ type Conn struct {
 
 	// whether the writing event has been set in the poller.
 	isWAdded bool
+	// number of this connection's registration with the poller, stored in the
+	// user data of its epoll events to tell them from stale events of an earlier
+	// connection that had the same descriptor number.
+	epollGen int32
 	// the first closing error.
 	closeErr error
 
